@@ -148,6 +148,23 @@ PROMPT = {301, 302, 303, 304, 601, 905, 1810, 1002, 1003, 1102, 1103, 1107, 1202
 OVERDUE = {301, 302, 303, 304, 601, 1002, 1003, 1102, 1103, 1107, 1202, 1203, 1205, 1902}
 
 
+def delete_was_checked(trace, upto, deleter):
+    """D5 is the window between StopWithContext's ownership read (a Get issued from recordHeldByOther, site 25, that has
+    returned) and its Delete. A Delete that was not preceded by such a read of the deleting instance since its stop call began is a
+    different situation."""
+    ops = {}
+    ok = False
+    for l in trace[:upto]:
+        f = l.split()
+        if f[1] == "api" and f[2] == deleter and f[3] in ("2", "3"):
+            ok = False            # a new stop call: the read must belong to it
+        elif f[1] == "issue" and f[2] == deleter and f[4] == "3" and f[5] == "25":
+            ops[f[3]] = True
+        elif f[1] == "ret" and f[2] == deleter and f[3] in ops:
+            ok = True             # whatever the answer (own record, no record, error): the look was taken
+    return ok
+
+
 def signature(pid, code, idx, trace):
     """A narrow description of the failing situation: property/code/cause."""
     if code in OVERDUE:
@@ -161,7 +178,7 @@ def signature(pid, code, idx, trace):
                 return "%s/%d/after-%s" % (pid, code, f[1])
             if f[1] == "apply" and f[3] == "0":
                 op = f[2]
-                for l in trace[:k]:
+                for kk, l in enumerate(trace[:k]):
                     g = l.split()
                     if g[1] == "issue" and g[3] == op:
                         if g[4] == "4":
@@ -184,6 +201,8 @@ def signature(pid, code, idx, trace):
                             if owner == deleter:
                                 # the owner released its own record: not the stale-delete situation of D5
                                 return "%s/%d/after-own-delete" % (pid, code)
+                            if not delete_was_checked(trace, kk, deleter):
+                                return "%s/%d/after-unchecked-delete" % (pid, code)
                             return "%s/%d/after-site%s-kind4" % (pid, code, g[5])
                         if g[4] == "2" and g[5] == "2":
                             return "%s/%d/after-site2-kind2" % (pid, code)
@@ -204,16 +223,20 @@ def signature(pid, code, idx, trace):
         if code == 108:
             # who is deleting: the from-state of the stop call that issued the Delete
             inst = None
-            for l in trace[:idx]:
+            kk = idx
+            for j, l in enumerate(trace[:idx]):
                 f = l.split()
                 if f[1] == "issue" and int(f[3]) == op:
                     inst = f[2]
+                    kk = j
             frm = "?"
             for l in trace[:idx]:
                 f = l.split()
                 if f[1] == "trans" and f[2] == inst and f[4] == "5":
                     frm = f[3]
             cause += "-stopfrom%s" % frm
+            if inst is not None and not delete_was_checked(trace, kk, inst):
+                cause += "-unchecked"
     elif kind == "flag":
         cause = "flag%d-cause%d" % (a[1], a[2])
     elif kind == "issue":
